@@ -414,6 +414,9 @@ func (q *PathQuery) run() ([]*PathState, error) {
 					st.Events = addEvent(st.Events, Event{in, tag})
 					tagged = true
 				}
+				for _, t := range syncClosureTags(in, q.Event) {
+					st.Events = addEvent(st.Events, Event{in, t})
+				}
 			}
 			wasArmed := st.armed
 			if !st.armed && in == q.From {
